@@ -223,6 +223,24 @@ where
     }
 }
 
+/// The name as written: `prefix:local` for a name with a prefix.
+fn qualified_name(node: &xml_dom::XmlNode, local: String) -> String {
+    match xml_dom::AsExpandedName::as_expanded_name(node) {
+        Ok(Some((l, Some(p), _))) if p != "xmlns" => format!("{}:{}", p, l),
+        _ => local,
+    }
+}
+
+/// The in-scope namespace bindings of an element as (prefix, namespace name); the default namespace has the
+/// prefix "xmlns".
+fn namespace_bindings(element: &xml_dom::XmlElement) -> Result<Vec<(String, String)>, Box<dyn Error>> {
+    let mut bindings = vec![];
+    for ns in element.in_scope_namespace()? {
+        bindings.push((ns.node_name(), ns.node_value()?.unwrap_or_default()));
+    }
+    Ok(bindings)
+}
+
 fn append_child_to_tree<T>(node: T, child: xml_dom::XmlNode) -> Result<(), Box<dyn Error>>
 where
     T: Clone + xml_dom::Node + xml_dom::NodeMut + AsNode,
@@ -230,7 +248,7 @@ where
     match child {
         xml_dom::XmlNode::Attribute(v) => {
             let mut n = document_of(&node)?
-                .create_attribute(v.name().as_str())?;
+                .create_attribute(qualified_name(&v.as_node(), v.name()).as_str())?;
             n.borrow_mut().set_value(v.value()?.as_str())?;
 
             if let Some(mut attr) = node.attributes() {
@@ -251,8 +269,25 @@ where
         }
         xml_dom::XmlNode::Element(v) => {
             let n = document_of(&node)?
-                .create_element(v.tag_name().as_str())?;
+                .create_element(qualified_name(&v.as_node(), v.tag_name()).as_str())?;
             node.append_child(n.as_node())?;
+
+            // the namespace declarations written on the element (its bindings that are not its parent's)
+            let inherited: Vec<(String, String)> = match v.parent_node() {
+                Some(xml_dom::XmlNode::Element(p)) => namespace_bindings(&p)?,
+                _ => vec![],
+            };
+            for (prefix, uri) in namespace_bindings(&v)? {
+                if prefix == "xml" || inherited.contains(&(prefix.clone(), uri.clone())) {
+                    continue;
+                }
+                let name = if prefix == "xmlns" {
+                    prefix
+                } else {
+                    format!("xmlns:{}", prefix)
+                };
+                xml_dom::ElementMut::set_attribute(&n, name.as_str(), uri.as_str())?;
+            }
 
             if let Some(attributes) = v.attributes() {
                 for descendant in attributes.iter() {
